@@ -71,13 +71,11 @@ def nonlinearEffects (m : ModelS α) (w : WS α) (st : QS α) (qd : VecN α) (ta
       | some _ =>
         if lam ≠ 0 then { w with X_base := upd w.X_base i (w.X_lambda i * w.X_base lam) }
         else { w with X_base := upd w.X_base i (w.X_lambda i) }
-    if (m.body i).isVirtual then { w with f := upd w.f i SV.zero }
-    else
-      let f0 := m.rbi i * w.a i + crossf (w.v i) (m.rbi i * w.v i)
-      let f1 := match fext with
-        | none => f0
-        | some fe => if fe i ≠ SV.zero then f0 - (w.X_base i).applyAdjoint (fe i) else f0
-      { w with f := upd w.f i f1 }) w
+    let f0 := bodyForce m w i
+    let f1 := match fext with
+      | none => f0
+      | some fe => if fe i ≠ SV.zero then f0 - (w.X_base i).applyAdjoint (fe i) else f0
+    { w with f := upd w.f i f1 }) w
   rneaBackward m w tau
 
 /-- write `H(r, c) = x` -/
